@@ -2,6 +2,7 @@ package checks
 
 import (
 	"fmt"
+	"runtime"
 	"time"
 
 	"github.com/magisterquis/curlrevshell/verifx/bworld"
@@ -100,6 +101,7 @@ func c11(r *ev.Result, tier string) {
 	exploreProfiles(r, budget, c11Profiles(isQuick(tier))...)
 
 	n := 0
+	defer gcQuiet()()
 	for _, pl := range c11Payloads(isQuick(tier)) {
 		p := &bworld.Profile{
 			Name:        "c11-payload",
@@ -118,16 +120,11 @@ func c11(r *ev.Result, tier string) {
 			{Op: "line"}, {Op: "out", A: 0, Arg: 0}, {Op: "line"}, {Op: "out", A: 0, Arg: 1},
 			{Op: "release", A: 0, Dir: "output"}, {Op: "release", A: 0, Dir: "input"},
 		}
-		w, _, err := bworld.RunHistory(p, hist, nil, nil)
-		if nil != err {
-			ev.Broken("payload run: %s", err)
-		}
-		w.Close()
 		n++
-		for _, v := range w.Viols {
-			if "C11" != v.Prop {
-				continue
-			}
+		if 0 == n%64 {
+			runtime.GC()
+		}
+		for _, v := range seqRun(p, hist, "C11") {
 			r.Violate(ev.Violation{
 				Signature: "payload/" + v.Sig,
 				What:      fmt.Sprintf("payload %q: %s", pl, v.What),
